@@ -6,12 +6,15 @@
 // Kani is run with debug assertions on, so `buggy::Bug::new` (bug!, .assume()) is a PANIC here:
 // a harness that passes also shows that no `Bug` is ever produced from the inputs it covers.
 //
-// A. raw bytes: symbolic buffer, symbolic length <= N, through the real postcard decode
-//    (SyncIncoming::decode, SyncRequester::receive, SubscribeResponse::decode) and the real
-//    processing paths; Kani's automatic checks (panic, OOB, arithmetic overflow, invalid pointer)
-//    are the oracle; plus: every returned policy/data slice lies inside the received bytes.
-// B. structured: a SyncResponse with k CommandMeta whose lengths / session id / index are
-//    symbolic (all u32 / u128 / u64 values) and a symbolic-length tail, against the exact spec.
+// A. raw bytes (decode step): symbolic bytes behind concrete enum tags, concrete lengths, through
+//    the real postcard/serde decoders for the integer-only message kinds; Kani's automatic checks
+//    (panic, OOB, arithmetic overflow, invalid pointer) are the oracle; the undecoded remainder
+//    lies inside the input.
+// B. structured (processing step): SyncRequester::get_sync_commands - the body of receive and
+//    receive_push after decoding - on a SyncResponse with k CommandMeta whose lengths / session id
+//    / index are symbolic (all u32 / u128 / u64 values) and a symbolic-length tail, against the
+//    exact spec; and on the three control kinds.
+// A quantifies over bytes, B over every decoded value, so B covers whatever A's decoders return.
 use super::{
     super::{
         SubscribeResponse,
@@ -199,7 +202,7 @@ raw_harness!(c18_receive_raw_end_session, 21, [3], decode_response,
     [1 2 3 11 19 20 21]);
 raw_harness!(c18_receive_raw_sync_end, 24, [1], decode_response,
     [RESP_POSTCARD_ERR, RESP_DECODED_CONTROL],
-    [1 2 3 4 13 23 24]);
+    [3 4 13 24]);
 
 #[kani::proof]
 #[kani::unwind(8)]
